@@ -10,7 +10,19 @@
 //   --mode mut     mutation agreement: mutated valid streams, refdec verdict
 //                  and output vs lzma_stream_decoder / lzma_alone_decoder /
 //                  lzma_lzip_decoder / lzma_raw_decoder
-//   --mode all     files, then rt and mut for --cases cases each
+//   --mode garbage random / semi-structured garbage into every rd_* entry
+//                  point (sanitizers are the oracle) + rd_detect() vs
+//                  lzma_auto_decoder()
+//   --mode all     files, then rt, mut and garbage for --cases cases each
+//
+// Other options (hx_parse): --seed N --cases N --shard i/n --only IDX (replay
+// one case verbosely; for mut "--extra K" selects mutation K of the base),
+// --corpus DIR, --outdir DIR (witness files; default
+// /verif/.build/refdec-scratch), --extra verbose.
+// rt also contains "raw_lzma2_insert": an uncompressed LZMA2 chunk without
+// dictionary reset spliced in front of an LZMA chunk that continues without
+// state reset (something liblzma's encoder never emits), and mut contains
+// field-aimed mutations with CRC32 re-fixing driven by refdec's structure map.
 //
 // Exit status 0 = no failure (disagreements inside the documented
 // relaxations are counted as "no verdict" classes and do not fail).
@@ -797,6 +809,7 @@ static void mode_rt(void)
 		unsigned flags = (t.fmt == F_XZ || t.fmt == F_LZIP) ? (ep == EP_MULTI || ep == EP_LZIP || vrng_chance(&r, 1, 2) ? RD_CONCATENATED : 0) : 0;
 		rd_result q;
 		decode_case_rd(&t, t.enc.p, t.enc.n, flags, &q);
+		if (verbose && q.nchunks) fprintf(stderr, "  first chunk control 0x%02X, dict_resets=%u, max_distance_used=%" PRIu64 "\n", q.chunks[0].control, q.blocks[0].dict_resets, q.blocks[0].max_distance_used);
 		bool ok = true;
 #define RTFAIL(...) do { ok = false; failf(__VA_ARGS__); } while (0)
 		if (q.relaxation_zone) {
@@ -914,8 +927,8 @@ static void mode_rt(void)
 // mode mut: mutation agreement with liblzma's decoders
 ///////////////////////////////////////////////////////////////////////////
 
-enum { M_BITFLIP, M_BYTE, M_TRUNC, M_INSERT, M_DELETE, M_APPEND, M_FIELD, M_FIELD_CRCFIX, M_CHECKID, M_DICT, M_COUNT };
-static const char *const m_names[M_COUNT] = { "bitflip", "byte", "trunc", "insert", "delete", "append", "field", "field_crcfix", "checkid", "dict" };
+enum { M_BITFLIP, M_BYTE, M_TRUNC, M_INSERT, M_DELETE, M_APPEND, M_FIELD, M_FIELD_CRCFIX, M_CHECKID, M_DICT, M_CHUNK, M_VLI, M_COUNT };
+static const char *const m_names[M_COUNT] = { "bitflip", "byte", "trunc", "insert", "delete", "append", "field", "field_crcfix", "checkid", "dict", "chunk", "vli" };
 
 static void wr_le32(uint8_t *p, uint32_t v) { p[0] = (uint8_t)v; p[1] = (uint8_t)(v >> 8); p[2] = (uint8_t)(v >> 16); p[3] = (uint8_t)(v >> 24); }
 
@@ -1049,6 +1062,49 @@ static bool mutate(vrng *r, int mk, const tcase *t, const rd_result *base, vbuf 
 		wr_le32(m->p + h + 8, ref_crc32(m->p + h + 6, 2, 0));
 		wr_le32(m->p + ft, ref_crc32(m->p + ft + 4, 6, 0));
 		return true;
+	}
+	case M_CHUNK: {
+		// LZMA2 chunk headers (control byte, sizes, properties)
+		if (base->nchunks == 0) return false;
+		const rd_chunk *k = &base->chunks[vrng_below(r, (uint32_t)base->nchunks)];
+		if (k->off >= n) return false;
+		static const uint8_t ctl[] = { 0x00, 0x01, 0x02, 0x03, 0x7F, 0x80, 0x9F, 0xA0, 0xC0, 0xE0, 0xFF, 0x40 };
+		unsigned how = vrng_below(r, 4);
+		if (how <= 1 || k->header_len < 3) {
+			uint8_t nv = vrng_chance(r, 1, 2) ? ctl[vrng_below(r, sizeof(ctl))] : (uint8_t)((m->p[k->off] & 0x1F) | (vrng_below(r, 8) << 5));
+			if (nv == m->p[k->off]) nv ^= 0x20;
+			m->p[k->off] = nv;
+		} else {
+			size_t o = k->off + 1 + vrng_below(r, (uint32_t)k->header_len - 1);
+			if (o >= n) return false;
+			m->p[o] = vrng_chance(r, 1, 2) ? (uint8_t)(m->p[o] + (vrng_chance(r, 1, 2) ? 1 : -1)) : interesting_byte(r, m->p[o]);
+			if (m->p[o] == t->enc.p[o]) m->p[o] ^= 1;
+		}
+		// (in .xz the Check normally rejects too; raw LZMA2 and Check None streams give the sharp cases)
+		return true;
+	}
+	case M_VLI: {
+		// non-minimal re-encoding of a Block Header VLI (one byte taken from
+		// Header Padding, CRC32 re-fixed): must be rejected
+		if (t->fmt != F_XZ && t->fmt != F_BLOCK) return false;
+		if (base->nfields == 0) return false;
+		for (int tries = 0; tries < 30; ++tries) {
+			const rd_field *f = &base->fields[vrng_below(r, (uint32_t)base->nfields)];
+			if (f->kind != RDF_BLOCK_COMP_SIZE && f->kind != RDF_BLOCK_UNCOMP_SIZE && f->kind != RDF_FILTER_FLAGS) continue;
+			const rd_field *pad = NULL;
+			for (size_t i = 0; i < base->nfields; ++i)
+				if (base->fields[i].kind == RDF_BLOCK_HEADER_PADDING && base->fields[i].block == f->block) pad = &base->fields[i];
+			if (pad == NULL || pad->len < 1 || pad->off + pad->len > n) continue;
+			size_t last = f->off;
+			while (last < f->off + f->len && (m->p[last] & 0x80)) ++last;   // last byte of the (first) VLI of the field
+			if (last >= f->off + f->len) continue;
+			memmove(m->p + last + 2, m->p + last + 1, pad->off + pad->len - 1 - (last + 1));
+			m->p[last] |= 0x80;
+			m->p[last + 1] = 0x00;
+			crcfix(m, base, f->off);
+			return true;
+		}
+		return false;
 	}
 	case M_DICT: {
 		// declared dictionary near the largest distance used (boundary and
